@@ -391,6 +391,8 @@ class ExprMixin:
                     return tv_none()
                 if name == "__name__":
                     return TV("str", z3.StringVal(o.node.name if hasattr(o.node, "name") else "<lambda>"))
+            if isinstance(o, ObjDict) and name == "get":
+                return py(("objdict.get", o), "objdictget")
             if isinstance(o, (list, tuple)):
                 raise Unsupported("attribute of tuple")
             raise Unsupported(f"attribute {name} of {o!r}")
